@@ -794,7 +794,8 @@ impl Pooled for C16 {
                     if predicted > budget {
                         st.inc("big_cases_capped_for_time");
                         st.sample(json!(format!("capped: {} {} n={} (rung {target} predicted {predicted:.0}s, exponent {e:.2}; completed up to n={pm})", c.profile, c.op, c.n)));
-                        st.max("largest_completed_before_cap", pm as u64);
+                        st.max("max_size_completed_by_a_capped_case", pm as u64);
+                        st.inc(&format!("capped:{}:{}", c.profile, c.op.split(':').take(2).collect::<Vec<_>>().join(":")));
                         return out;
                     }
                 }
